@@ -446,6 +446,16 @@ for e, props in (('b_rt_times', ['C01', 'C03', 'C04', 'C05', 'C06', 'C08', 'C14'
        defines={'WANT_FULL': 1} if e == 'b_full_expectation' else {},
        bound='none for the scalars (free RT_TIMES bounds); one mock object, one sequence, one or two expectations built by the real constructor chain')
 
+# unit c09: whole scenarios written against the public macros (driver functions), lowered with the user's closures (C09, partial)
+UNITS['c09'] = {
+    'opaque': [' get_lock$'],
+    'dyn_types': [r'^sequence_handler<[012]>$', r'^call_matcher<.*>$', r'^return_handler_t<.*\(lambdaat.*\)>$', r'^condition<.*\(lambdaat.*\)>$', r'^side_effect<.*\(lambdaat.*\)>$'],
+    'roots': {'C09_ALIAS': '^_ZN14vp_trompeloeil12vp_c09_aliasE', 'C09_LR': '^_ZN14vp_trompeloeil16vp_c09_lr_returnE', 'C09_POS': '^_ZN14vp_trompeloeil16vp_c09_positionsE', 'OBS': 'rec:^vp_vp_obs$'},
+}
+for e in ('c_alias', 'c_lr', 'c_positions'):
+    ob(name='c09.%s' % e[2:], kind='FC+', props=['C09'], unit='c09', harness='h_c09.c', entry=e, unwind=6, timeout=900, object_bits=12,
+       bound='none for the values (symbolic ints); the scenario (one mock function of arity 3 / 1 / 0, the clauses listed in the harness) is fixed by the driver function')
+
 # thorough-only: mock_func with expectations in two sequences (concrete K), larger text shapes
 ob(name='world.call.mock_func.two_sequences', kind='BL', props=['C01', 'C02', 'C03', 'C05', 'C07', 'C08', 'C14', 'C15', 'C16', 'C17'], unit='world_ii', harness='h_world.c', entry='w_call', tier='thorough',
    variants=world_variants(2, 2, True), unwind=10, timeout=2400, bound=_BOUND % 'N=2 expectations, expectation 0 in both sequences, expectation 1 in 0..2', min_reach=0)
